@@ -847,10 +847,41 @@ def run_meta(cx):
     from vlib import paths
     w = open(os.path.join(paths.CORPUS, "iff", "f54-typedef-chain.yang")).read()
     cx.run_impl(HARNESS, ["0 cmp load 0 0 m5 - m:m5:%s" % hexs(w)], component="compile")
+    # corpus witnesses of the findings in the compiler proper, as laws on the compiled text
+    def corpus(name):
+        return open(os.path.join(paths.CORPUS, "iff", name)).read()
+    w55, w56 = corpus("f55-leaflist-min-default.yang"), corpus("f56-nested-refine.yang")
+    base57 = 'module base { yang-version 1.1; namespace "urn:base"; prefix b; container c { leaf x { type string; } }\n' \
+             ' augment "/b:c" { leaf a1 { type string; } } augment "/b:c" { leaf a2 { type string; } } }'
+    aug57 = 'module aug { yang-version 1.1; namespace "urn:aug"; prefix a; import base { prefix b; } augment "/b:c" { leaf y { type string; } } }'
+    u57 = "m:base:%s m:aug:%s" % (hexs(base57), hexs(aug57))
+    wl = ["0 cmp load 0 0 m55 - m:m55:%s" % hexs(w55), "1 cmp load 0 0 r - m:r:%s" % hexs(w56),
+          "2 cmp load 0 0,1 base - " + u57, "3 cmp load 0 1,0 base - " + u57]
+    wr = cx.run_impl(HARNESS, wl, component="compile")
+    txt = lambda k: unhex(wr[k][1]).decode() if wr.get(k, ["err"])[0] == "ok" else ""
+    cx.count("witness-f55", True, "meta:witness")
+    if drop_f55(parse_blocks(txt("0"))) != parse_blocks(txt("0")):
+        cx.fail("compile", "leaf-list with min-elements >= 1 has the default value of its type (RFC 7950 sec. 7.7.2)",
+                {"module": w55, "compiled": txt("0"), "finding_class": "F55"})
+    cx.count("witness-f56", True, "meta:witness")
+    blocks = parse_blocks(txt("1"))
+    def get(items, *path):
+        for p_ in path:
+            items = next((ch for st, ch in items if st == p_), [])
+        return [st for st, _ in items]
+    if "mandatory true" in get(blocks, "module r", "container top", "container c8", "leaf l3") or \
+            "max-elements 7" not in get(blocks, "module r", "container top2", "leaf-list ll"):
+        cx.fail("compile", "the refine of an inner uses overrides the refine of the outer uses (RFC 7950 sec. 7.13)",
+                {"module": w56, "compiled": txt("1"), "finding_class": "F56"})
+    cx.count("witness-f57", True, "meta:witness")
+    if txt("2") != txt("3"):
+        cx.fail("compile", "effective schema depends on load order / compile mode",
+                {"units": [("m", "base", base57), ("m", "aug", aug57)], "order_a": (0, 1), "order_b": (1, 0), "a": [txt("2")], "b": [txt("3")],
+                 "finding_class": "F57" if canon(parse_blocks(txt("2")), {"a1": "0", "a2": "0"}, True) == canon(parse_blocks(txt("3")), {"a1": "0", "a2": "0"}, True) else None})
     lines, meta = [], {}
     n = 0
     descs = []
-    for _ in range(cx.n(60, 1500)):
+    for _ in range(cx.n(100, 1500)):
         try:
             d = Desc(rng)
         except (IndexError, ValueError, RecursionError):
